@@ -214,6 +214,7 @@ theorem termH_error (g : Graph) (lab : Node → LabelVal) (h : Option Hierarchy)
       · next e' haxs =>
         simp only [Except.error.injEq] at he; subst he
         obtain ⟨y, _, hy⟩ := allOk_error _ _ _ haxs
+        unfold valueOrKeyError at hy
         split at hy
         · simp at hy
         · simp only [Except.error.injEq] at hy; exact hy.symm
@@ -544,7 +545,7 @@ theorem termH_static (g : Graph) (lab : Node → Nat) (au : Nat) (td : List (Nod
       = .ok (if au == lab v then (1 : Rat) else -1) := by
     by_cases hc : au == lab v <;> simp [hc, distanceH]
   rw [hs]
-  simp only [allOk_map_ok, List.filter_map, List.length_map, Function.comp_def]
+  simp only [valueOrKeyError, allOk_map_ok, List.filter_map, List.length_map, Function.comp_def]
 
 theorem labelFrequencyH_static (g : Graph) (lab : Node → Nat) (u : Node) (nodes : List Node) (td : List (Node × Nat))
     (start : Int) :
